@@ -204,3 +204,13 @@ func lemmaTokenIgnoresBlindType2(key *rsa.PrivateKey, challenge, nonce, keyID, b
 	m2 := string(t2.Marshal())
 	Vassert(m1 == m2)
 }
+
+// Marshal respects the frame assumed for tokens.TokenRequest.Marshal (used by the generic batch): it writes
+// the receiver's own object only.
+//
+//@ lemma props C04
+//@ assigns object(tokens.TokenRequest(r))
+func lemmaMarshalRefinesTokenRequest(r *BasicPublicTokenRequest) {
+	Vassume(r != nil && (r.raw == nil || string(r.raw) == specEncT2Req(r.TokenKeyID, string(r.BlindedReq))))
+	r.Marshal()
+}
